@@ -135,6 +135,10 @@ Theorem C20_precompile_methods_covered : unbound_methods = [].
 Proof. exact precompile_methods_covered. Qed.
 Print Assumptions C20_precompile_methods_covered.
 
+Theorem C20_signature_indexes_guarded : unguarded_indexes = [] /\ gen_index_guards <> [].
+Proof. exact signature_indexes_guarded. Qed.
+Print Assumptions C20_signature_indexes_guarded.
+
 Theorem C20_validate_nonvacuous :
   v_Params default_params = VOk /\
   v_MsgUpdateParams {| up_authority := BGood 1; up_chain := ChEth; up_params := default_params |} = VOk /\
